@@ -61,6 +61,26 @@ def gen(rng, tier):
             for m, what in [(raw.upper(), "upper"), (raw[:-1], "short"), (raw + b"0", "long"), (raw[:-1] + (b"0" if raw[-1:] != b"0" else b"1"), "nibble"), (b"", "empty")]:
                 cases.append(Case("tokval %s %s %s %s %d %d 0 0" % (t, hexs(m), hexs(k), fp, iv, check), "val mangled-" + what, True,
                                   spec="spec.tokval %s %s %s %s %d %d" % (t, hexs(m), hexs(k), fp, iv, check)))
+    # every other byte value at a few positions of a genuine, currently valid token (a decoder that accepts a character it should not
+    # makes a forged twin of the token valid): first, second, last two and one random position x 255 values
+    swept = set()
+    for (t, k, fp, iv, issue, check, rel), o in zip(plan, outs):
+        fk = "nofp" if fp == "none" else "fp"
+        if rel != "d+0" or (t, fk) in swept or abs(check) > 2 ** 40 or (tier == "quick" and len(swept) >= 2): continue
+        swept.add((t, fk)); raw = bytearray(bytes.fromhex(o.split()[1]))
+        # positions: the first even-index and the first odd-index occurrence of the digits a hex decoder treats specially, plus the ends
+        poss = set([0, len(raw) - 1])
+        for ch in b"019af":
+            for par in (0, 1):
+                cand = [i for i in range(len(raw)) if raw[i] == ch and i % 2 == par]
+                if cand: poss.add(cand[0])
+        vals = list(range(0x20, 0x7F)) + [0x00, 0x0A, 0x7F, 0x80, 0xB0, 0xC7, 0xE6, 0xFF] if tier == "quick" else list(range(256))
+        for pos in sorted(poss):
+            for v in vals:
+                if v == raw[pos]: continue
+                m = bytearray(raw); m[pos] = v
+                cases.append(Case("tokval %s %s %s %s %d %d 0 0" % (t, hexs(bytes(m)), hexs(k), fp, iv, check), "val one-char-substituted %s" % fk, True,
+                                  spec="spec.tokval %s %s %s %s %d %d" % (t, hexs(bytes(m)), hexs(k), fp, iv, check)))
     # errno rule and invalid intervals
     for now, err in [(-1, 1), (-1, 0), (5, 1), (0, 1), (TMIN, 1), (TMAX, 1)]:
         for fp in ("none", hexs(b"fp")):
